@@ -821,9 +821,24 @@ func c12Legacy(run *vfRun, t *testing.T) {
 	defer w.Close()
 	iss := w.IdP.Issuer
 	caseNo := 0
-	for _, store := range []string{"cookie", "redis"} {
-		p, err := w.NewProxy("--provider=keycloak", "--login-url="+iss+"/authorize", "--redeem-url="+iss+"/token", "--profile-url="+iss+"/userinfo", "--validate-url="+iss+"/userinfo",
-			"--session-store-type="+store, "--redis-connection-url="+w.RedisURL(), "--cookie-refresh=1m", "--cookie-expire=2h", "--pass-access-token=true", "--scope=openid")
+	// "redis+del-fault" (round 6): the store's DEL fails while the refused session is being removed — the refusal and the
+	// clearing of the browser's cookie must not depend on the store delete succeeding
+	var delFault int32
+	hub := vfNewRedisHub(w.Redis())
+	defer hub.Close()
+	hub.SetHooks(func(c *vfRedisCmd) vfRedisDecision {
+		if c.Op == "DEL" && atomic.LoadInt32(&delFault) == 1 && !strings.Contains(c.Key, "healthcheck") {
+			return vfRedisDecision{Fault: &vfRedisFault{Kind: "err-before"}}
+		}
+		return vfRedisDecision{}
+	}, nil)
+	for _, store := range []string{"cookie", "redis", "redis+del-fault"} {
+		storeFlags := []string{"--session-store-type=" + strings.TrimSuffix(store, "+del-fault"), "--redis-connection-url=" + w.RedisURL()}
+		if store == "redis+del-fault" {
+			storeFlags[1] = "--redis-connection-url=" + hub.Front(77).URL("max_retries=-1")
+		}
+		p, err := w.NewProxy(append([]string{"--provider=keycloak", "--login-url=" + iss + "/authorize", "--redeem-url=" + iss + "/token", "--profile-url=" + iss + "/userinfo", "--validate-url=" + iss + "/userinfo",
+			"--cookie-refresh=1m", "--cookie-expire=2h", "--pass-access-token=true", "--scope=openid"}, storeFlags...)...)
 		if err != nil {
 			t.Fatalf("legacy provider instance (%s): %v", store, err)
 		}
@@ -883,7 +898,11 @@ func c12Legacy(run *vfRun, t *testing.T) {
 					})
 				}
 				uid := fmt.Sprintf("c12l-%s-%s-%d-%s", store, kind, age/time.Second, vfRandHex(3))
+				if store == "redis+del-fault" {
+					atomic.StoreInt32(&delFault, 1)
+				}
 				r1 := b.Get(p, "/x", "X-Vf-Id", uid)
+				atomic.StoreInt32(&delFault, 0)
 				served1 := len(w.Up.FindHit(uid)) > 0
 				left := len(b.Jar.For("proxy.test", "/", false))
 				// a client that does not honour deletions (the very user whose token the provider no longer accepts) keeps every
@@ -895,7 +914,11 @@ func c12Legacy(run *vfRun, t *testing.T) {
 					}
 				}
 				servedKept, keptCode := false, 0
-				if len(kept) > 0 && age > time.Minute && kind != "200" {
+				if len(kept) > 0 && age > time.Minute && kind != "200" && store == "redis+del-fault" {
+					// not judged: the entry could not be deleted, so a client that ignores the cookie deletion may still present a
+					// ticket for it — the statement speaks about this request and the browser's cookie only
+					run.Count("legacy_del_fault_refusals_that_carried_a_session_cookie", 1)
+				} else if len(kept) > 0 && age > time.Minute && kind != "200" {
 					rk := p.Do(vfGET("/x", "X-Vf-Id", uid+"-k").H("Cookie", strings.Join(kept, "; ")))
 					keptCode = rk.Code
 					servedKept = len(w.Up.FindHit(uid+"-k")) > 0
